@@ -299,6 +299,20 @@ pub fn fnv(s: &str) -> String {
     format!("{:012x}", h & 0xffff_ffff_ffff)
 }
 
+/// Key of a text-level failure: the two source code tokens at the first place where the code
+/// token sequences part (the fusion / swallowing site), independent of layout config and whitespace.
+pub fn site_key(dialect: &str, a: &[String], b: &[String]) -> String {
+    let n = a.len().min(b.len());
+    let mut i = 0;
+    while i < n && a[i] == b[i] {
+        i += 1;
+    }
+    let tok = |k: usize| -> String {
+        a.get(k).map(|s| s.chars().filter(|c| !c.is_whitespace()).take(24).collect::<String>()).unwrap_or_else(|| "<end>".into())
+    };
+    format!("c06:site:{}:{}+{}", dialect, tok(i), tok(i + 1))
+}
+
 /// first index where two sequences differ, with a little context
 pub fn first_diff(a: &[String], b: &[String]) -> String {
     let n = a.len().min(b.len());
@@ -441,6 +455,8 @@ fn run_one(ls: &mut Linters, it: &Item, out: &mut Buf) {
         eprintln!("FIXED: {:?}", fixed);
     }
     let hkey = fnv(&it.sql);
+    out.hyp("parsed_tree_spells_source", "blocking", t0.raw() == it.sql.replace("\r\n", "\n"), json!({"input": input}));
+    out.hyp("parsed_tree_holds_lexed_tokens", "blocking", t0.code_seq() == code_of(&src_toks) && t0.comments_sorted() == comments_of(&src_toks), json!({"input": input}));
     out.count("batches", rec.batches.len());
     if !rec.batches.is_empty() {
         out.count("inputs_with_fixes", 1);
@@ -503,23 +519,31 @@ fn run_one(ls: &mut Linters, it: &Item, out: &mut Buf) {
             out.hyp("relex_stable", "diagnostic", relex, json!({"input": input}));
             let code_ok = code_of(&src_toks) == code_of(&fx_toks);
             let comm_ok = comments_of(&src_toks) == comments_of(&fx_toks);
+            let key = if !code_ok {
+                site_key(&it.dialect, &code_of(&src_toks), &code_of(&fx_toks))
+            } else if !comm_ok {
+                format!("c06:comments:{}:{}", it.dialect, hkey)
+            } else {
+                site_key(&it.dialect, &tf.code_seq(), &code_of(&fx_toks))
+            };
             if !code_ok {
                 let msg = format!("code tokens changed by layout fix: {}", first_diff(&code_of(&src_toks), &code_of(&fx_toks)));
-                out.direct("text-code", false, &format!("c06:code:{}:{}", it.dialect, hkey), &msg, input.clone());
+                out.direct("text-code", false, &key, &msg, input.clone());
             } else {
                 out.direct("text-code", true, "", "", Value::Null);
             }
             if !comm_ok {
-                out.direct("text-comments", false, &format!("c06:comments:{}:{}", it.dialect, hkey), "comment multiset changed by layout fix", input.clone());
+                out.direct("text-comments", false, &key, "comment multiset changed by layout fix", input.clone());
             } else {
                 out.direct("text-comments", true, "", "", Value::Null);
             }
             if !relex {
                 let msg = format!("final tree and lex(fix(source)) differ: {}", first_diff(&tf.code_seq(), &code_of(&fx_toks)));
-                out.direct("tree-vs-relex", false, &format!("c06:relex:{}:{}", it.dialect, hkey), &msg, input.clone());
+                out.direct("tree-vs-relex", false, &key, &msg, input.clone());
             } else {
                 out.direct("tree-vs-relex", true, "", "", Value::Null);
             }
+            out.hyp("fixed_is_final_tree_text", "blocking", fixed == tf.raw(), json!({"input": input}));
             if fixed != it.sql {
                 out.count("inputs_changed_by_fix", 1);
             }
